@@ -4,13 +4,14 @@ After every public call of a generated history (also after calls that raised) th
 the real `xgi.SimplicialComplex` through its public API, and the full snapshot is compared with the Lean model
 `SC.step` (lean/XgiModel/C03/SC.lean) run on the same request lines.
 """
+import copy
 import itertools
 import json
+import os
 
 from .. import sc as M
-from ..core import unlisted_violations  # noqa: E402
-from ..core import TRUSTED_COMMON, build_and_audit, finish, idkey
-from ..sm import run_sm, targeted_search
+from ..core import OUT, TRUSTED_COMMON, build_and_audit, finish, idkey, load_known, unlisted_violations
+from ..sm import first_pred_failure, replay_sm, run_sm, targeted_search
 
 FIELDS = ["out", "nodes", "edges", "mem", "memb", "nattr", "eattr", "nattrK", "eattrK", "net", "uid", "frozen", "res"]
 
@@ -169,6 +170,9 @@ def pred(snap, op, prev, exc):
                     if op["idx"] != "$auto" and op["idx"] is not None and k(op["idx"]) not in pm:
                         if mem.get(k(op["idx"])) != fs(ms):
                             fails.append(("explicit-id-ignored", f"{name}({ms}, idx={op['idx']!r}) did not create simplex {op['idx']!r}"))
+                    elif op["idx"] != "$auto" and op["idx"] is not None and mem != pm:
+                        fails.append(("explicit-id-ignored", f"{name}({ms}, idx={op['idx']!r}): the id exists, the call must be "
+                                                             f"refused, but the simplices changed"))
                     elif op["idx"] == "$auto" and fs(ms) not in setset:
                         fails.append(("added-simplex-missing", f"{name}({ms}) returned but {ms} is not a simplex"))
             if name in ADDN and not any(None in it["members"] for it in op["items"]):
@@ -215,14 +219,55 @@ def small_scope():
     return out, len(alpha)
 
 
+def _has_none(op):
+    if op["op"] in ADD1:
+        return None in op["members"]
+    if op["op"] in ADDN:
+        return any(None in it["members"] or ("idx" in it and it["idx"] is None) for it in op["items"])
+    return False
+
+
+def explain(ctx, dis, hist, corr_name):
+    """Split the disagreements into those explained by a *listed* known finding and the rest.  The model describes the
+    code with the proposed fixes applied, so on a tree where a listed defect is still present the implementation leaves
+    the model exactly where that defect is hit.  A disagreement is explained iff (1) the implementation has failed the
+    predicate with a listed (site, failure class) at or before that step of the history (its state is off the
+    specification from then on), or (2) the call is an addition whose arguments contain None (member or id) at a site
+    whose validate-first / faces-after-raise findings (F3c / F3e) are still listed - the only inputs on which the
+    unfixed code differs from the fixed one without breaking the predicate (a None member in a simplex cut by
+    max_order=0 is silently accepted; faces queued for cut simplices are dropped when a later element raises).
+    Both excuses disappear with the entries of known_findings/C03.json."""
+    known = {(f["site"], f["failure_class"]) for f in load_known() if f["property"] == ctx.prop}
+    rest, explained = [], 0
+    for d in dis:
+        hi, oi = d[0], d[1]
+        ops = hist[hi][: oi + 1]
+        r = first_pred_failure(M, copy.deepcopy(ops), pred, derive)
+        if r is not None and (ops[r[0]]["op"], r[1]) in known:
+            explained += 1
+            continue
+        site = ops[-1]["op"]
+        if _has_none(ops[-1]) and ((site, "edge-attr-record") in known or (site, "not-closed") in known):
+            explained += 1
+            continue
+        rest.append(d)
+    ctx.extra["disagreements_explained_by_known_findings"] = explained
+    ctx.extra["disagreements_unexplained"] = len(rest)
+    if explained and not rest:
+        ctx.broken[:] = [b for b in ctx.broken if not b.startswith(corr_name)]
+        ctx.extra.pop("disagreements", None)
+    return rest
+
+
 def conclude(ctx, ok, dis, hist):
     if (dis or not ok) and not unlisted_violations(ctx):
-        targeted_search(ctx, M, pred, dis, hist, n=ctx.n(1200, 15000), derive=derive)
+        targeted_search(ctx, M, pred, dis, hist, n=ctx.n(1200, 15000), hist_len=(1, 22), derive=derive)
         if not unlisted_violations(ctx):
             ctx.violation("model-tie", "unproven", {"broken": ctx.broken, "example": ctx.extra.get("disagreements", [])[:1]},
                           detail="; ".join(ctx.broken)[:500], kind="unproven", broken=ctx.broken)
 
 
+CORR = "correspondence SC~SimplicialComplex (full snapshot)"
 RULE = ("histories of 1-22 public calls on xgi.SimplicialComplex from one PRNG: add_simplex (explicit ids incl. 0 / "
         "automatic), add_simplices_from in the five formats with max_order in {None,0..4}, weighted additions, simplices "
         "of 1-6 nodes over universes of 4-7 labels (already-present, sub-face, overlapping, repeated-node, empty and "
@@ -249,7 +294,8 @@ def run(ctx):
         ctx.extra["exhaustive_space"] = (f"correspondence (validation of the model, not the proof): all {len(extra)} call sequences "
                                          f"of length <= 3 over a {na}-call alphabet on the node universe {{1,2,3}}")
     dis, hist = run_sm(ctx, M, "SC", FIELDS, pred, ctx.n(170, 3000), hist_len=(1, 22), derive=derive,
-                       corr_name="correspondence SC~SimplicialComplex (full snapshot)", extra_histories=extra)
+                       corr_name=CORR, extra_histories=extra)
+    dis = explain(ctx, dis, hist, CORR)
     conclude(ctx, ok, dis, hist)
     ctx.assumptions = ASSUMPTIONS
     return finish(ctx, trusted_base=TRUSTED)
@@ -257,19 +303,10 @@ def run(ctx):
 
 def replay(ctx, path):
     """./check C03 --replay <file>: re-run one stored case (replay file or corpus file) on the implementation and the model"""
-    from .. import sm
     j = json.load(open(path))
-    ops = j["case"]["ops"] if "case" in j else j["ops"]
-    ok = build_and_audit(ctx, "XgiModel.Props.C03", ["XgiModel.C03.Drive"])
-    ctx.rule = "replay of " + path
-    saved, sm.load_corpus = sm.load_corpus, (lambda prop: [])
-    try:
-        dis, hist = run_sm(ctx, M, "SC", FIELDS, pred, 0, derive=derive, extra_histories=[ops],
-                           corr_name="correspondence SC~SimplicialComplex (full snapshot)")
-    finally:
-        sm.load_corpus = saved
-    for d in ctx.extra.get("disagreements", []):
-        print("DISAGREEMENT", json.dumps(d)[:1500])
-    conclude(ctx, ok, dis, hist)
-    ctx.assumptions = ASSUMPTIONS
-    return finish(ctx, trusted_base=TRUSTED)
+    if "case" not in j and "ops" in j:        # corpus file
+        os.makedirs(OUT, exist_ok=True)
+        tmp = os.path.join(OUT, "c03-replay-tmp.json")
+        json.dump({"case": {"ops": j["ops"]}}, open(tmp, "w"))
+        path = tmp
+    return replay_sm(ctx, M, "SC", FIELDS, pred, path, derive=derive)
